@@ -30,6 +30,14 @@ CHECKS = {
                 note='trusted: family compositions mirror the shipped configurations; planner failures on stochastic families and searches beyond the budget are undecided (counted, never reported); one known finding (memory_rooms) is listed in KNOWN_FINDINGS.txt'),
     'C20': dict(engine='gymsim', design='5/C20', technique='deterministic simulation: gym-level clients (direct, gym.make(id).unwrapped, registry factory; with/without GymStateWrapper) refined op by op against a functionally threaded twin and oracle-built representations; representation switches injected at arbitrary points; adversary noise on global state',
                 note='trusted: the twin inner environment and separately constructed representation objects; indices outside range(n) and GymEnvironment.seed are not exercised'),
+    'C05': dict(engine='viewsim', design='5/C05', technique='deterministic simulation (weak fit: pure function of state and view): a walking client reaches poses on edges/corners in all headings through the real move/turn functions; every observation read is compared cell by cell with the reference view geometry; the generator seam of the stochastic function is owned (ScriptedRng uniform/extreme and real seeds)',
+                note='weak fit for this technique (DESIGN.md section 0): the simulator contributes pose histories, the generator seam and the per-read oracle; trusted: view geometry of gvsim/model.py (validated against fully_transparent)'),
+    'C06': dict(engine='viewsim', design='5/C06', technique='deterministic simulation with fault injection (weak fit): corrupt_hidden faults replace hidden / out-of-view world cells in a twin state at the moment of a read and the observation must not change; monotone probes; chain condition on visibility masks; stochastic mask bounded by the deterministic one for scripted extreme and seeded draws',
+                note='weak fit (DESIGN.md section 0); the agent cell counts as a chain link whatever it holds; non-interference judged for the deterministic functions only'),
+    'C15': dict(engine='sim', design='5/C15', technique='deterministic simulation: seeded histories (corner walks, pick/drop/swap, door and box opening) over declared spaces with member worlds using every declared type/status/colour and over shipped configurations; after every step all three representations of state and observation are checked key by key against the declared space and the gym space',
+                note='trusted: own shape/dtype/bounds check; member worlds use only declared types and colours; views have their origin inside'),
+    'C19': dict(engine='raysim', design='5/C19', technique='deterministic simulation with cache faults: seeded query histories over compute_ray / compute_rays / compute_rays_fancy and cached variants (offset areas included) interleaved with visibility calls, cache clearing and foreign queries between a query and its repeat; per-ray path invariants, fan coverage, repeat equality, cached-vs-recomputed equality',
+                note='the geometric clauses are pure; the simulator contributes query history and cache faults'),
     'C08': dict(engine='sim', design='5/C08', technique='deterministic simulation: seeded op schedules over free-form worlds and shipped configurations, per-component and per-step refinement of the agent pose against a reference model, history invariant',
                 note='trusted: the reference model (gvsim/model.py) and the descriptor reader (gvsim/lib.py); teleport destinations are judged by C11, raising steps by C01'),
     'C09': dict(engine='sim', design='5/C09', technique='deterministic simulation: seeded op schedules, per-component object-inventory conservation and pick-and-drop case analysis against a reference model',
@@ -43,6 +51,8 @@ NOT_APPLICABLE = [
 ]
 
 ENGINES = {
+    'viewsim': ('gvsim/views.py', 'walking client + real observation / visibility functions against the reference view geometry; hidden-state corruption faults'),
+    'raysim': ('gvsim/props/c19.py', 'ray query client + visibility client + cache adversary'),
     'resetsim': ('gvsim/resets.py', 'case runner for the eight built-in reset functions with owned generators (real seeded / ScriptedRng), validator, model planner and real-step search'),
     'gymsim': ('gvsim/props/c20.py', 'gym-layer runner: real GymEnvironment / GymStateWrapper / OuterEnv over YAML-built GridWorlds, next to a functionally threaded twin'),
     'stochastic': ('gvsim/props/c11.py', 'scripted-generator runner: real GridWorld / transition functions with a ScriptedRng or a real seeded Generator, outcome forcing'),
